@@ -55,6 +55,7 @@ def replay_through(case, monitor_factory, match=None):
     try:
         mod = load_program(case["text"], ctx.scratch, tag="replay")
         sess = Session(mod, case["root"], case["text"])
+        sess.apply_prelude(case.get("prelude"))
         mons = monitor_factory(ctx, case)
         for m in mons:
             m.on_program(sess)
